@@ -57,10 +57,10 @@ ASSUMPTIONS = ["CPython iterates a small set by slot index, so n keys with force
                "bounded: no counterexample within the stated bounds, nothing more"]
 BOUNDS = {"quick": {"orders_per_case": "all n! (n <= 6); generated adjacent pairs: all orders of the <= 4 obfuscators involved", "hash_seeds": 16, "generated_cases": "substrings + 9x9 kinds x 4 glues + same-text + substitutes",
                     "inside_set_orders": "all n! per set built via set() in the obfuscator modules (n <= 5)", "max_lines": 4, "line_kinds": 6, "clean_content_configs": 60, "clean_file_configs": 5,
-                    "provider_configs": 3},
+                    "provider_configs": 3, "spec_declarations": "2 no_redact x 3 no_obfuscate x 7 spec kinds, contents <= 2 lines"},
           "thorough": {"orders_per_case": "all n! (n <= 6)", "hash_seeds": 64, "generated_cases": "substrings + 9x9 kinds x 7 glues + same-text + substitutes",
                        "inside_set_orders": "all n! per set built via set() in the obfuscator modules (n <= 5)", "max_lines": 5, "line_kinds": 6, "clean_content_configs": 60, "clean_file_configs": 5,
-                       "provider_configs": 4}}
+                       "provider_configs": 4, "spec_declarations": "2 no_redact x 3 no_obfuscate x 7 spec kinds, contents <= 3 lines"}}
 CAP_S = {"quick": 120, "thorough": 1200}
 
 CLAUSE_DET = "determinism:one-output-over-iteration-orders"
@@ -565,6 +565,33 @@ CF_CONFIGS = [{"patterns": "plain", "allow": al, "no_redact": False, "obfuscate"
 WR_CONFIGS = [{"spec": "plain", "allow": None}, {"spec": "ds", "allow": None},
               {"spec": "filt", "allow": {"ALLOW": 2}}, {"spec": "cmd", "allow": None},
               {"spec": "cmdfilt", "allow": {"ALLOW": 2}}, {"spec": "filt", "allow": {"ALLOW": 10000}}]
+# spec DECLARATIONS (RegistryPoint(no_redact=..., no_obfuscate=...)): with filterable yes/no they produce every
+# possible `cleans` list of ContentProvider._clean_content - [], [Redact], [Obfuscate], [Filter] and their combinations
+NO_OBF = {"none": [], "some": ["hostname", "ip"], "all": list(lib.ALL_OBFUSCATIONS)}
+DECLS = [{"no_redact": nr, "no_obf": no} for nr in (False, True) for no in ("none", "some", "all")]
+DECL_SPECS = [("plain", None), ("ds", None), ("cmd", None), ("filt", {"ALLOW": 2}), ("cmdfilt", {"ALLOW": 2}),
+              ("filt", None), ("cmdfilt", None)]          # the last two: filterable without any filter registered
+
+
+def wr_decl_configs():
+    """Every declaration but the default one (the default runs the full content space in WR_CONFIGS) x every spec kind,
+    plus the default declaration on a filterable spec without filters."""
+    out = []
+    for d in DECLS:
+        for spec, allow in DECL_SPECS:
+            if d == DECLS[0] and allow is not None or d == DECLS[0] and spec in ("plain", "ds", "cmd"):
+                continue
+            out.append({"spec": spec, "allow": allow, "decl": d})
+    return out
+
+
+def cleans_of(cfg):
+    d = cfg.get("decl") or DECLS[0]
+    c = ([] if d["no_redact"] else ["Redact"]) + ([] if d["no_obf"] == "all" else ["Obfuscate"]) + \
+        (["Filter"] if cfg["spec"] in ("filt", "cmdfilt") else [])
+    return "+".join(c) or "none"
+
+
 SUBPROCESS_SPECS = ("filt", "cmd", "cmdfilt")      # their loader is shell_out(...).splitlines(): kind F is not for them
 B_CLEANER = {"patterns": "plain", "obfuscate": True}
 
@@ -688,7 +715,9 @@ def check_wr(case, root):
     from insights.core.serde import Hydration
     cfg, syms = case["cfg"], case["syms"]
     lines = build_lines(syms)
-    sp = lib.make_specs(cfg["allow"], one_call=True)
+    d = cfg.get("decl")
+    sp = lib.make_specs(cfg["allow"], one_call=True,
+                        decl=None if d is None else {"no_redact": d["no_redact"], "no_obfuscate": NO_OBF[d["no_obf"]]})
     indir = os.path.join(root, "in")
     v = []
 
@@ -764,6 +793,8 @@ def contents_for(path, cfg, tier):
         base_len = L
     elif path == "cf":
         base_len, extra_len, kinds_extra = L, L - 1, EXTRA_KINDS
+    elif cfg.get("decl"):
+        return _strings(BASE_KINDS, L - 2)       # the declaration dimension: every content of <= 2 (quick) / <= 3 lines
     else:
         sub = cfg["spec"] in SUBPROCESS_SPECS
         base_len = L - 1 if sub else L
@@ -795,6 +826,8 @@ def check_b(case, root=None):
 def b_features(case, info=None):
     cfg = case["cfg"]
     f = {"path": case["path"], "allowlist": cfg.get("allow") is not None}
+    if case["path"] == "wr":
+        f["cleans"] = cleans_of(cfg)
     f.update((info or {}).get("features") or {})
     return f
 
@@ -942,6 +975,8 @@ def units(tier, seed):
         n = (4 if tier == "quick" else 24)
         for s in range(n):
             us.append({"part": "B", "path": "wr", "cfg": cfg, "shard": s, "of": n})
+    for cfg in wr_decl_configs():
+        us.append({"part": "B", "path": "wr", "cfg": cfg, "shard": 0, "of": 1})
     for allow in C_ALLOWS:
         n = 1 if tier == "quick" else 4
         for s in range(n):
